@@ -45,28 +45,28 @@ type Typed struct {
 
 // Unescape drops each escaping backslash and keeps the rune it escapes.
 func Unescape(s string) string {
-	var b strings.Builder
+	out := make([]byte, 0, len(s))
 	esc := false
-	for _, r := range s {
-		if !esc && r == '\\' {
+	for i := 0; i < len(s); i++ {
+		if !esc && s[i] == '\\' {
 			esc = true
 			continue
 		}
 		esc = false
-		b.WriteRune(r)
+		out = append(out, s[i])
 	}
-	return b.String()
+	return string(out)
 }
 
 func hasUnescapedWildcard(s string) bool {
 	esc := false
-	for _, r := range s {
+	for i := 0; i < len(s); i++ {
 		switch {
 		case esc:
 			esc = false
-		case r == '\\':
+		case s[i] == '\\':
 			esc = true
-		case r == '*' || r == '?':
+		case s[i] == '*' || s[i] == '?':
 			return true
 		}
 	}
